@@ -1,5 +1,6 @@
 """The executor: verifies one function of the real source against its sidecar contract."""
 import ast
+import os
 import time
 
 import z3
@@ -27,6 +28,65 @@ class Frame:
         self.module = module
         self.func = func
         self.cls = cls
+
+
+def local_binding_order(fnode):
+    """names of the locals of a function in the order in which they are first bound (parameters excluded)"""
+    params = {a.arg for a in fnode.args.args + fnode.args.kwonlyargs + fnode.args.posonlyargs}
+    if fnode.args.vararg:
+        params.add(fnode.args.vararg.arg)
+    if fnode.args.kwarg:
+        params.add(fnode.args.kwarg.arg)
+    found = []
+    sig = [None]
+
+    def shape(node):
+        """the bound expression with the names of variables blanked out"""
+        if node is None:
+            return "?"
+        n2 = ast.parse(ast.unparse(node), mode="eval").body
+        for x in ast.walk(n2):
+            if isinstance(x, ast.Name):
+                x.id = "_"
+        return ast.dump(n2)
+
+    def targets(t):
+        if isinstance(t, ast.Name):
+            found.append((t.lineno, t.col_offset, t.id, sig[0]))
+        elif isinstance(t, (ast.Tuple, ast.List)):
+            for x in t.elts:
+                targets(x)
+        elif isinstance(t, ast.Starred):
+            targets(t.value)
+
+    def walk(node, top):
+        for ch in ast.iter_child_nodes(node):
+            if isinstance(ch, (ast.FunctionDef, ast.AsyncFunctionDef, ast.Lambda, ast.ClassDef, ast.ListComp, ast.DictComp, ast.SetComp, ast.GeneratorExp)):
+                continue      # own scopes
+            if isinstance(ch, ast.Assign):
+                sig[0] = "=" + shape(ch.value)
+                for t in ch.targets:
+                    targets(t)
+            elif isinstance(ch, (ast.AugAssign, ast.AnnAssign, ast.NamedExpr)):
+                sig[0] = "=" + shape(ch.value)
+                targets(ch.target)
+            elif isinstance(ch, ast.For):
+                sig[0] = "for " + shape(ch.iter)
+                targets(ch.target)
+            elif isinstance(ch, ast.withitem) and ch.optional_vars is not None:
+                sig[0] = "with " + shape(ch.context_expr)
+                targets(ch.optional_vars)
+            elif isinstance(ch, ast.ExceptHandler) and ch.name:
+                found.append((ch.lineno, ch.col_offset, ch.name, "except"))
+            walk(ch, False)
+
+    walk(fnode, True)
+    order, sigs = [], {}
+    for _l, _c, n, sg in sorted(found):
+        if n not in params and n not in order:
+            order.append(n)
+            sigs[n] = sg
+    return [[n, sigs[n]] for n in order]
 
 
 class Executor(StmtMixin, ExprMixin, CallMixin, LibMixin):
@@ -207,6 +267,29 @@ class Executor(StmtMixin, ExprMixin, CallMixin, LibMixin):
         self.cur_inputs = args
         path.env = dict(args)
         self.frames = [Frame(fi.module, fi, fi.cls)]
+        # contracts name a few locals (loop invariants over an accumulator): a pure renaming of locals - same number of locals, bound
+        # in the same order - is followed, so that it is not mistaken for a different function
+        self.local_order = local_binding_order(fi.node)
+        base = getattr(self.registry, "baseline_locals", {}).get(c.target)
+        if base and not isinstance(base[0], (list, tuple)):
+            base = [[n, None] for n in base]
+        self.local_rename = {}
+        cur_names = [n for n, _s in self.local_order]
+        if base and [n for n, _s in base] != cur_names:
+            import difflib
+            base_names = [n for n, _s in base]
+            for tag, i1, i2, j1, j2 in difflib.SequenceMatcher(a=base_names, b=cur_names, autojunk=False).get_opcodes():
+                if tag == "replace" and i2 - i1 == j2 - j1:      # a run of locals bound at the same places under other names
+                    for b, o in zip(base_names[i1:i2], cur_names[j1:j2]):
+                        if b not in cur_names and o not in base_names:
+                            self.local_rename[b] = o
+            # otherwise: a local that disappeared and exactly one new local that is first bound to an expression of the same shape
+            gone = [(n, sg) for n, sg in base if n not in cur_names and n not in self.local_rename]
+            new = [(n, sg) for n, sg in self.local_order if n not in base_names and n not in self.local_rename.values()]
+            for n, sg in gone:
+                cands = [m for m, sg2 in new if sg2 == sg]
+                if len(cands) == 1 and sum(1 for _n, sg2 in gone if sg2 == sg) == 1:
+                    self.local_rename[n] = cands[0]
         ctx0 = Ctx(self, path, args)
         if c.axioms is not None:
             for ax in c.axioms(ctx0):
@@ -245,6 +328,9 @@ class Executor(StmtMixin, ExprMixin, CallMixin, LibMixin):
                         # the result (or the final state) no longer has the shape the postcondition talks about
                         # (e.g. an optional value where a value is promised): the postcondition cannot hold as stated
                         post = {"the result has the shape the contract describes": z3.BoolVal(False)}
+                        if os.environ.get("VERIF_DEBUG"):
+                            import traceback
+                            traceback.print_exc()
                         self.assumptions.add(f"postcondition of {c.name} not applicable to the returned value: {type(e).__name__}: {e}")
                     if isinstance(post, dict):
                         for cname, cform in post.items():
@@ -300,6 +386,8 @@ class Executor(StmtMixin, ExprMixin, CallMixin, LibMixin):
             "callee_contracts": sorted(self.called_contracts),
             "exec_s": round(time.time() - t0, 3),
             "assumptions": sorted(self.assumptions),
+            "local_order": self.local_order,
+            "locals_renamed": dict(self.local_rename),
         }
         return obls, info
 
